@@ -186,7 +186,10 @@ def rule_args(chk):
         chk.ob("C12.args/substitution", ok, "MacroArg(i) is replaced by args[i]; other tokens are copied" if ok else
                "the macro body substitution no longer replaces MacroArg(i) by args[i] and copies the remaining tokens unchanged", where(asm))
     mp = f.fn("parse", PP, self_ty="Macro")
-    if chk.anchor("C12.anchor/Macro::parse", mp, "Macro::parse"):
+    if mp and rule_macro_parse_eval(chk):
+        chk.ob("C12.args/param-index", True, "decided by the evaluated Macro::parse (C12.args/define/*)", where(mp), trivial=True)
+        chk.ob("C12.args/concat-token", True, "decided by the evaluated Macro::parse (C12.args/define/*)", where(mp), trivial=True)
+    elif chk.anchor("C12.anchor/Macro::parse", mp, "Macro::parse"):
         ok_arg = ok_cat = False
         for cb in [mp] + f.closures_of(mp["path"]):
             for (p, it, body, node) in F.for_loops(cb["thir"]):
@@ -219,6 +222,84 @@ def rule_args(chk):
         chk.ob("C12.args/param-index", ok_arg, "a parameter name in the body becomes MacroArg(index of that parameter)" if ok_arg else
                "Macro::parse no longer maps a parameter reference to MacroArg(<its position>)", where(mp))
         chk.ob("C12.args/concat-token", ok_cat, "## in a body becomes Token::Concat" if ok_cat else "## in a macro body is no longer turned into Concat", where(mp))
+
+
+def macro_parse_model(f):
+    """Macro::parse evaluated on a few #define lines -> {line: (is_function, num_params, [token kinds]) | 'Err' | ('unreadable', why)}"""
+    import interp as I
+    mp = f.fn("parse", PP, self_ty="Macro")
+    if not mp:
+        return None, {}
+
+    def tok(k, v=None):
+        return I.Enum("PreprocessToken", None, {"0": I.Enum("Token", k, {} if v is None else {"0": v}), "1": I.Enum("PreprocessTokenData", None, {"x": 0})})
+    idt = lambda s: tok("Id", I.Enum("Identifier", None, {"0": s}))
+    W, LP, RP, CM, HH = tok("Whitespace"), tok("LeftParen"), tok("RightParen"), tok("Comma"), tok("HashHash")
+    lines = {
+        "F(x) x": [idt("F"), LP, idt("x"), RP, W, idt("x")],
+        "F (x) x": [idt("F"), W, LP, idt("x"), RP, W, idt("x")],
+        "F/**/(x) x": [idt("F"), tok("Comment"), LP, idt("x"), RP, W, idt("x")],
+        "F(a,b) a##b": [idt("F"), LP, idt("a"), CM, idt("b"), RP, W, idt("a"), HH, idt("b")],
+        "F(a, b) b a a": [idt("F"), LP, idt("a"), CM, W, idt("b"), RP, W, idt("b"), W, idt("a"), W, idt("a")],
+        "N 7": [idt("N"), W, tok("LiteralInt", 7)],
+        "F() 1": [idt("F"), LP, RP, W, tok("LiteralInt", 1)],
+        "X a##b": [idt("X"), W, idt("a"), HH, idt("b")],
+        "  F(x) x": [W, idt("F"), LP, idt("x"), RP, W, idt("x")],
+        "F(x": [idt("F"), LP, idt("x")],
+        "(x)": [LP, idt("x"), RP],
+    }
+    out = {}
+    for line, toks in lines.items():
+        ip = I.Interp(f, max_depth=10, extern={"get_location": lambda a: I.Opaque("loc")})
+        ip.max_loop = 200
+        try:
+            r = ip.apply(mp, [toks])
+        except I.Unknown as e:
+            out[line] = ("unreadable" if "panicking" not in str(e) else "aborts", str(e)[:100])
+            continue
+        if isinstance(r, I.Enum) and r.variant == "Err":
+            out[line] = "Err"
+        elif isinstance(r, I.Enum) and r.variant == "Ok" and isinstance(r.fields.get("0"), I.Enum):
+            m = r.fields["0"]
+            kinds = []
+            for t_ in m.fields.get("tokens") or []:
+                k = t_.fields["0"]
+                p0 = k.fields.get("0")
+                if isinstance(p0, I.Enum):
+                    p0 = p0.fields.get("0")
+                kinds.append(k.variant if k.variant in ("Whitespace", "LeftParen", "RightParen", "Concat", "HashHash", "Comma") else "%s:%s" % (k.variant, p0))
+            out[line] = (m.fields.get("is_function"), m.fields.get("num_params"), kinds)
+        else:
+            out[line] = ("unreadable", repr(r)[:80])
+    return mp, out
+
+
+MACRO_REF = {
+    "F(x) x": (True, 1, ["MacroArg:0"]),
+    "F (x) x": (False, 0, ["LeftParen", "Id:x", "RightParen", "Whitespace", "Id:x"]),
+    "F/**/(x) x": (False, 0, ["LeftParen", "Id:x", "RightParen", "Whitespace", "Id:x"]),
+    "F(a,b) a##b": (True, 2, ["MacroArg:0", "Concat", "MacroArg:1"]),
+    "F(a, b) b a a": (True, 2, ["MacroArg:1", "Whitespace", "MacroArg:0", "Whitespace", "MacroArg:0"]),
+    "N 7": (False, 0, ["LiteralInt:7"]),
+    "F() 1": (True, 0, ["LiteralInt:1"]),
+    "X a##b": (False, 0, ["Id:a", "Concat", "Id:b"]),
+    "  F(x) x": (True, 1, ["MacroArg:0"]),
+    "F(x": "Err",
+    "(x)": "Err",
+}
+
+
+def rule_macro_parse_eval(chk):
+    """Macro::parse evaluated on #define lines: name, kind (function-like iff '(' follows the name directly), parameter
+    count, body with every parameter reference replaced by MacroArg(<its position>) and ## by Concat. True if readable."""
+    mp, tab = macro_parse_model(chk.facts)
+    if not mp or any(isinstance(v, tuple) and v and v[0] == "unreadable" for v in tab.values()):
+        return False
+    for line, want in MACRO_REF.items():
+        got = tab.get(line)
+        chk.ob("C12.args/define/%s" % line.replace(" ", "_"), got == want, "#define %s -> %s" % (line, (got,)) if got == want else
+               "`#define %s` is recorded as %s, must be %s (function-like?, parameter count, body)" % (line, (got,), (want,)), where(mp), sample={"define": line})
+    return True
 
 
 def rule_once(chk):
